@@ -155,3 +155,14 @@ def attr_flows(func_node, var):
                             taint[t.id] = old | fl
                             changed = True
     return taint, flows
+
+
+def call_name_of(node):
+    """Last path component of the callee if ``node`` is a Call, else None."""
+    if isinstance(node, ast.Call):
+        f = node.func
+        if isinstance(f, ast.Name):
+            return f.id
+        if isinstance(f, ast.Attribute):
+            return f.attr
+    return None
